@@ -192,6 +192,8 @@ def decide(o):
             res['ok_paths'] += 1
             for label, cond in pr.value:
                 res['asserts'] += 1
+                if label.startswith('crosshair'):
+                    res.setdefault('xhair', []).append(label.split(' ')[0])
                 t = z3.simplify(_cond_term(cond))
                 if z3.is_true(t):
                     continue
@@ -327,6 +329,13 @@ def _compare_observed(sym_obs, conc_obs, model):
 # --------------------------------------------------------------------------
 # known findings
 # --------------------------------------------------------------------------
+def _count(xs):
+    out = {}
+    for x in xs:
+        out[x] = out.get(x, 0) + 1
+    return out
+
+
 def _sum_dicts(ds):
     out = {}
     for d in ds:
@@ -492,6 +501,7 @@ def finish(prop, tier, seed, mod, results, wall):
                                                        and all('known' in f for f in r['fail'])]),
             'obligations_inconclusive': n_inc,
             'vacuity_twins_refuted': '%d of %d (deliberately wrong oracles that must be refuted with a replaying model)' % (len(twins) - len(twins_bad), len(twins)),
+            'second_engine_crosshair': _count([x for r in results for x in r.get('xhair', [])]),
             'second_solver_rechecks': _sum_dicts([r.get('second_solver', {}) for r in results]),
             'fork_mode_twins_agree': len([r for r in results if r.get('forkmode') and r['verdict'] == 'holds']),
             'obligations_outside_claim_arithmetic_domain': len([r for r in results if r['verdict'] == 'outside']),
